@@ -66,6 +66,25 @@ LINK_FNS = {
     "link_undirected": explicit.link_undirected,
 }
 
+def exodus_selection(members, op):
+    """Which members leave, and in which order (shared with the reference model)."""
+    n = len(members)
+    pat = op.get("pattern", "even")
+    if pat == "even":
+        sel = members[0::2]
+    elif pat == "odd":
+        sel = members[1::2]
+    elif pat == "front":
+        sel = members[: (n * op.get("pct", 60)) // 100]
+    elif pat == "back":
+        sel = members[n - (n * op.get("pct", 60)) // 100 :]
+    else:  # "thirds": two of every three
+        sel = [m for i, m in enumerate(members) if i % 3]
+    if op.get("rev"):
+        sel = sel[::-1]
+    return sel
+
+
 BAD_VALUES = {
     "int": 5,
     "str": "x",
@@ -178,6 +197,14 @@ class Exec:
         except Exception as exc:  # pylint: disable=broad-except
             return {"exc": type(exc).__name__}
 
+    # -- process-wide settings ----------------------------------------------
+    def op_flag(self, op):
+        """The application turns neighbor caching on or off between two calls."""
+        from egsim import seams
+
+        seams.set_flag(bool(op["on"]))
+        return bool(op["on"])
+
     # -- constructors -------------------------------------------------------
     def op_mk_vertex(self, op):
         cls = C.VERTEX_CLASSES[op.get("cls", "Vertex")]
@@ -229,6 +256,15 @@ class Exec:
         u = cls(attributes={"sim_tag": op.get("tag", 0)}, vertices=verts)
         self.w.add(op["new"], u)
         return u
+
+    def op_exodus(self, op):
+        """Many members leave one universe, one call each, in a stated order."""
+        u = self.g(op["u"])
+        for v in exodus_selection(list(u.vertices), op):
+            if op.get("side") == "v":
+                v.remove_from_universe(u)
+            else:
+                u.remove_vertex(v)
 
     def op_mk_laws(self, op):
         law = UniverseLaws(**dict(op.get("kw") or {}))
